@@ -70,7 +70,9 @@ class Recorder:
              'X': X.reshape(X.shape[0], -1).copy() if X.ndim >= 1 else X, 'cfg_ok': 1,
              'eo': copy.deepcopy(p['envelope_opts'] or {}), 'xo': copy.deepcopy(p['extrema_opts'] or {})}
         c['ev'].append({'e': 'Begin', 'method': str(p['stop_method']), 'max_iters': int(p['max_iters']),
-                        'step': st if st is not None else -1, 'energy': int(p['energy_thresh'] is not None)})
+                        'step': st if st is not None else -1, 'energy': int(p['energy_thresh'] is not None),
+                        # a single signal: a vector, or an array whose trailing dimensions are all one
+                        'valid_layout': int(X.ndim >= 1 and all(d == 1 for d in X.shape[1:]))})
         outer, self.cur = self.cur, c
         meta = {'raised': None, 'flag': None, 'ret': None, 'n': int(X.shape[0])}
         try:
@@ -623,6 +625,11 @@ class UseInlinePool:
         self.orig = self.sift.mp
         shim = _MpShim()
         shim.Pool = InlinePool
+
+        class _Worker:           # jobs run in this process: it plays "worker 1" (the code reads current_process()._identity[0])
+            _identity = (1,)
+            name = 'InlineWorker-1'
+        shim.current_process = lambda: _Worker
         self.sift.mp = shim
         return self
 
